@@ -446,15 +446,17 @@ func RunCase(c Case) (res stats.Result) {
 	var (
 		topQ        []int
 		outstanding = map[int]bool{} // accepted, not answered, not discarded
-		lookups     []*lookupState
-		lookupIdx   = map[string]int{}
-		fwdIdx      = map[string]int{}
-		pendLookup  = -1 // lookup sent for the access at the head of the top port, not yet taken
-		ctlQ        []*mem.ControlMsg
-		flushing    bool
-		draining    bool
-		epoch       int
-		botRefQ     bool
+		// flushedAtPort: still waiting at the top port when a restart was processed
+		flushedAtPort = map[int]bool{}
+		lookups       []*lookupState
+		lookupIdx     = map[string]int{}
+		fwdIdx        = map[string]int{}
+		pendLookup    = -1 // lookup sent for the access at the head of the top port, not yet taken
+		ctlQ          []*mem.ControlMsg
+		flushing      bool
+		draining      bool
+		epoch         int
+		botRefQ       bool
 	)
 	describe := func(i int) string {
 		a := c.Accs[i]
@@ -510,6 +512,10 @@ func RunCase(c Case) (res stats.Result) {
 			if flushing || draining {
 				st[i].status = 2
 				labels["dropped-at-restart"] = true
+				break
+			}
+			if flushedAtPort[i] {
+				fail("%s was waiting at the top port when the translator was restarted (it belongs to the flushed epoch), yet it is accepted afterwards", describe(i))
 				break
 			}
 			st[i].status = 1
@@ -669,6 +675,11 @@ func RunCase(c Case) (res stats.Result) {
 				draining = false
 				flushing = false
 				epoch++
+				// whatever still waits at the top port was sent before the flush completed and
+				// belongs to the flushed epoch: the restart drops it
+				for _, i := range topQ {
+					flushedAtPort[i] = true
+				}
 			}
 			ctlQ = ctlQ[1:]
 		case "tick:":
